@@ -31,7 +31,13 @@ RULE = ("a ThreadedWriter around a recording destination (with a failure mask ov
         "queued behind everything offered before); with a stalled destination (logical clock) further offers never wait; messages buffered by eliot before any destination existed are handed to the writer by startService itself and written first; a redundant stopService() "
         "(not running) raises ValueError and leaves nothing behind for the next cycle; part 'signals' (forked child, OS scheduling): an interval "
         "timer's handler offers messages on the thread that is itself offering 30 000 messages - no offer blocks, both sequences are written in order; two fifths of the messages are dict subclasses whose == answers "
-        "True to anything or only works against mappings, half of the destination failures carry unhashable arguments; part 'nostderr' (forked child, OS scheduling): the process has no usable standard error stream (sys.stderr a closed file, fd 2 closed, fd 2 a pipe without reader, sys.stderr None) while the wrapped destination raises for some of the messages offered by one or two threads over 1-2 cycles - every message is still passed to the destination exactly once, in order, on one foreign thread, before stopService's result completes. non-trivial = schedule whose preemption fired in logwriter.py or with stop concurrent to offers; distinct by "
+        "True to anything or only works against mappings, half of the destination failures carry unhashable arguments; part 'nostderr' (forked child, OS scheduling): the process has no usable standard error stream (sys.stderr a closed file, fd 2 closed, fd 2 a pipe without reader, sys.stderr None) while the wrapped destination raises for some of the messages offered by one or two threads over 1-2 cycles - every message is still passed to the destination exactly once, in order, on one foreign thread, before stopService's result completes. part 'fork' (OS scheduling): the writer is carried over an os.fork() - constructed in the parent and started only in the child (the daemonising-launcher order), "
+        "constructed, run through a whole start/stop cycle, then forked and started again in the child, constructed before the fork and then started and used independently in both processes, "
+        "or started in the parent and forked while running - and 1-2 threads offer messages over 1-2 cycles in each process; the wrapped destination holds the first message "
+        "until everything has been offered (a slow write) and notes any call that begins while another has not returned: every message offered in a process between its "
+        "startService and stopService is passed exactly once, in order, on one thread that is not a caller's, never two at a time, before stopService's result completes "
+        "(for the copy of a running writer in a forked child, whose writer thread does not exist there, only: at most once, in order, on at most one foreign thread, and nothing that the parent was offered). "
+        "non-trivial = schedule whose preemption fired in logwriter.py or with stop concurrent to offers; distinct by "
         "interleaving hash")
 ASSUMPTIONS = ["twisted is not installed: Service and deferToThreadPool are the stand-ins of vf/twisted_stub.py, which reproduce only the two "
                "behaviours ThreadedWriter relies on", "messages offered concurrently with stopService are only required to be written at most once"]
@@ -46,6 +52,7 @@ def plan(tier, seed):
     specs += [{"seed": seed, "i": i, "tier": tier, "slow": True} for i in range(4 if tier == "quick" else 24)]
     specs += [{"seed": seed, "i": i, "tier": tier, "signals": True} for i in range(4 if tier == "quick" else 12)]
     specs += [{"seed": seed, "i": i, "tier": tier, "nostderr": True} for i in range(5 if tier == "quick" else 40)]
+    specs += [{"seed": seed, "i": i, "tier": tier, "fork": True} for i in range(8 if tier == "quick" else 60)]
     return specs
 
 
@@ -588,6 +595,268 @@ def run_nostderr(spec, res):
                                              "failing": sorted(failing)[:20], "problems": problems[:4], "calls": rep.get("calls", [])[:40]}})
 
 
+FORK_SCENARIOS = ["construct_fork_start", "cycle_fork_start", "construct_fork_both", "start_fork_both"]
+
+
+class ForkRecorder(object):
+    """The wrapped destination of part 'fork'. Lock-free on purpose (it is copied by fork() while other threads may be inside it)."""
+
+    def __init__(self, failing, grace):
+        import threading
+        self.failing = failing
+        self.grace = grace
+        self.calls = []     # [tag, p, seq, cyc, thread number] on entry
+        self.done = []      # [tag, p, seq, cyc] when the call is over
+        self.overlaps = []  # [key that began, key whose call had not returned]
+        self.inside = []
+        self.threads = []   # thread objects seen, kept alive: position = a name that is never reused
+        self.gate_key = None
+        self.all_offered = threading.Event()
+        self.overlap_seen = threading.Event()
+
+    def reset(self):
+        import threading
+        self.calls, self.done, self.overlaps, self.inside = [], [], [], []
+        self.all_offered = threading.Event()
+        self.overlap_seen = threading.Event()
+
+    def me(self):
+        import threading
+        t = threading.current_thread()
+        for k, x in enumerate(self.threads):
+            if x is t:
+                return k
+        self.threads.append(t)
+        return self.threads.index(t)
+
+    def __call__(self, msg):
+        key = [msg["tag"], msg["p"], msg["seq"], msg["cyc"]]
+        if self.inside:
+            self.overlaps.append([key, list(self.inside[-1])])
+            self.overlap_seen.set()
+        self.inside.append(key)
+        self.calls.append(key + [self.me()])
+        try:
+            if key == self.gate_key:
+                # a slow write: lasts until everything of the cycle has been offered, then a little longer (a second writing
+                # thread, if there is one, shows up in the meantime; a late one can only go unnoticed)
+                self.all_offered.wait(30)
+                self.overlap_seen.wait(self.grace)
+            if tuple(key) in self.failing:
+                raise excs.DestFault("wrapped destination fails for %r" % (key,))
+        finally:
+            self.inside.remove(key)
+            self.done.append(key)
+
+
+def _fork_use(writer, rec, tag, nprod, nmsg, cycles, running, reset):
+    """Drive the writer in the current process: `cycles` times (startService unless it is `running` already), offers from nprod
+    threads, stopService and wait for its result. -> report"""
+    if reset:
+        rec.reset()
+    callers = [rec.me()]
+    completed = []
+    unfinished = None
+    for cyc in range(cycles):
+        rec.gate_key = [tag, 0, 0, 0] if cyc == 0 else None
+        rec.all_offered.clear()
+        with warnings.catch_warnings():
+            warnings.simplefilter("ignore")
+            if not (running and cyc == 0):
+                writer.startService()
+
+        def offer(p, cyc=cyc):
+            if p:
+                callers.append(rec.me())
+            for s_ in range(nmsg):
+                writer({"tag": tag, "p": p, "seq": s_, "cyc": cyc})
+        others = [sched._real_Thread(target=offer, args=(p,), daemon=True) for p in range(1, nprod)]
+        for t in others:
+            t.start()
+        offer(0)
+        for t in others:
+            t.join()
+        rec.all_offered.set()
+        with warnings.catch_warnings():
+            warnings.simplefilter("ignore")
+            handle = writer.stopService()
+        for _ in range(240):
+            handle.thread.join(0.25)
+            if handle.finished or (_ >= 8 and (rec.overlaps or len(set(c_[4] for c_ in rec.calls)) > 1)):
+                break
+        if not handle.finished:
+            unfinished = cyc
+            break
+        completed.append(len(rec.done))
+    return {"calls": list(rec.calls), "done": list(rec.done), "overlaps": list(rec.overlaps), "callers": callers, "completed": completed,
+            "unfinished": unfinished}
+
+
+def _fork_judge(rep, where, tag, keys, cycles, full, failing, problems):
+    """-> reason for inconclusive or None. keys: [tag, p, seq, cyc] offered in this process, in offer order per producer."""
+    if rep.get("error"):
+        problems.append("%s: the caller's side raised %s" % (where, rep["error"]))
+        return None
+    calls = [tuple(x) for x in rep["calls"]]
+    got = [x[:4] for x in calls]
+    done = [tuple(x) for x in rep["done"]]
+    for a, b in rep["overlaps"][:2]:
+        problems.append("%s: message %s was passed to the wrapped destination while its call for message %s had not returned (two threads are writing)"
+                        % (where, tuple(a), tuple(b)))
+    count = {}
+    for k in got:
+        count[k] = count.get(k, 0) + 1
+    twice = sorted(k for k in count if count[k] > 1)
+    if twice:
+        problems.append("%s: message %s was passed to the wrapped destination %d times" % (where, twice[0], count[twice[0]]))
+    foreign = [k for k in got if k[0] != tag]
+    if foreign:
+        problems.append("%s: message %s, offered in the other process, was passed to the destination here" % (where, foreign[0]))
+    for cyc in range(cycles):
+        idents = set(x[4] for x in calls if x[3] == cyc)
+        if len(idents) > 1:
+            problems.append("%s: cycle %d: the wrapped destination was called on %d different threads" % (where, cyc, len(idents)))
+        if idents & set(rep["callers"]):
+            problems.append("%s: cycle %d: the wrapped destination was called on a caller's thread" % (where, cyc))
+    for p in sorted(set(k[1] for k in keys), key=str):
+        seq = [(k[3], k[2]) for k in got if k[1] == p and k[0] == tag]
+        if seq != sorted(seq):
+            problems.append("%s: producer %s's messages were passed out of order: %s" % (where, p, seq[:12]))
+    if rep["unfinished"] is not None:
+        if not problems:
+            return "%s: stopService's result of cycle %d did not complete in time" % (where, rep["unfinished"])
+        problems.append("%s: stopService's result of cycle %d had not completed when the run was given up" % (where, rep["unfinished"]))
+        return None
+    if full:
+        for cyc in range(cycles):
+            by_stop = set(done[:rep["completed"][cyc]])
+            missing = [tuple(k) for k in keys if k[3] == cyc and tuple(k) not in count]
+            late = [tuple(k) for k in keys if k[3] == cyc and tuple(k) in count and tuple(k) not in by_stop]
+            if missing:
+                problems.append("%s: %d of the messages offered in cycle %d were never passed to the wrapped destination although stopService's result completed, first %s"
+                                % (where, len(missing), cyc, missing[0]))
+            elif late:
+                problems.append("%s: stopService's result of cycle %d completed while the write of message %s had not finished" % (where, cyc, late[0]))
+    return None
+
+
+def run_fork(spec, res):
+    """A ThreadedWriter carried over os.fork(). The case process is the 'parent'; the forked child reports through a pipe."""
+    import json
+    import os
+    import select
+    import signal
+    import time
+    rng = random.Random("%s:C19:fork:%d" % (spec["seed"], spec["i"]))
+    scenario = FORK_SCENARIOS[spec["i"] % len(FORK_SCENARIOS)]
+    nprod = rng.choice([1, 1, 2])
+    nmsg = rng.choice([3, 6, 20])
+    cycles = rng.choice([1, 1, 2])
+    both = scenario in ("construct_fork_both", "start_fork_both")
+    running = scenario == "start_fork_both"
+    ccycles = 1 if running else cycles
+
+    def keys_of(tag, ncyc):
+        return [[tag, p, s_, c_] for c_ in range(ncyc) for p in range(nprod) for s_ in range(nmsg)]
+    failing = set(tuple(k) for k in keys_of("child", ccycles) + keys_of("parent", cycles) if rng.random() < 0.15 and k[1:] != [0, 0, 0])
+    rec = ForkRecorder(failing, 0.25)
+    res["evals"] += 1
+    c = res["counters"]
+    with warnings.catch_warnings():
+        warnings.simplefilter("ignore")
+        writer = logwriter.ThreadedWriter(rec, twisted_stub.Reactor())
+    pre = []
+    if scenario == "cycle_fork_start":
+        # a complete cycle before the fork; the child starts the (stopped) writer again
+        pr = _fork_use(writer, rec, "before", 1, 2, 1, False, True)
+        if pr["unfinished"] is not None:
+            res["inconclusive"] = "fork/%s: the cycle before the fork did not complete in time" % scenario
+            return
+    if running:
+        with warnings.catch_warnings():
+            warnings.simplefilter("ignore")
+            writer.startService()
+        rec.me()
+        for k in range(rng.choice([0, 2, 5])):
+            pre.append(["parent", "pre", k, 0])
+            writer({"tag": "parent", "p": "pre", "seq": k, "cyc": 0})
+    r, w = os.pipe()
+    pid = os.fork()
+    if pid == 0:
+        code = 0
+        try:
+            os.close(r)
+            rep = _fork_use(writer, rec, "child", nprod, nmsg, ccycles, running, True)
+            data = json.dumps(rep).encode()
+            while data:
+                data = data[os.write(w, data):]
+        except BaseException as e:
+            try:
+                os.write(w, json.dumps({"error": repr(e)}).encode())
+            except BaseException:
+                pass
+            code = 3
+        finally:
+            os._exit(code)
+    os.close(w)
+    prep = None
+    try:
+        if both:
+            try:
+                prep = _fork_use(writer, rec, "parent", nprod, nmsg, cycles, running, False)
+            except BaseException as e:
+                prep = {"error": repr(e)}
+        data = b""
+        deadline = time.monotonic() + 150
+        timed_out = False
+        while True:
+            left = deadline - time.monotonic()
+            if left <= 0 or not select.select([r], [], [], left)[0]:
+                timed_out = True
+                break
+            b = os.read(r, 65536)
+            if not b:
+                break
+            data += b
+    finally:
+        os.close(r)
+        if prep is None or timed_out:
+            try:
+                os.kill(pid, signal.SIGKILL)
+            except OSError:
+                pass
+        _, status = os.waitpid(pid, 0)
+    if timed_out:
+        res["inconclusive"] = "fork/%s: the forked child did not report within 150 s" % scenario
+        return
+    if not data:
+        res["inconclusive"] = "fork/%s: the forked child ended with status %r and no report" % (scenario, status)
+        return
+    rep = json.loads(data.decode())
+    problems = []
+    shape = "%d producer(s) x %d messages x %d cycle(s)" % (nprod, nmsg, ccycles)
+    what = {"construct_fork_start": "writer constructed before os.fork(), started and used in the child",
+            "cycle_fork_start": "writer run through a start/stop cycle, then os.fork(), started again and used in the child",
+            "construct_fork_both": "writer constructed before os.fork(), then started and used in parent and child independently",
+            "start_fork_both": "writer started before os.fork() and used in both processes"}[scenario]
+    inc = _fork_judge(rep, what + " (child, %s)" % shape, "child", keys_of("child", ccycles), ccycles, not running, failing, problems)
+    if both and not inc:
+        inc = _fork_judge(prep, what + " (parent)", "parent", pre + keys_of("parent", cycles), cycles, True, failing, problems)
+    if inc and not problems:
+        res["inconclusive"] = inc
+        return
+    c["fork_runs"] = c.get("fork_runs", 0) + 1
+    c["fork_" + scenario] = c.get("fork_" + scenario, 0) + 1
+    if not running and not rep.get("error"):
+        c["messages_written_in_a_forked_child"] = c.get("messages_written_in_a_forked_child", 0) + len(rep["calls"])
+    res["nontrivial"].append(h(["fork", scenario, nprod, nmsg, cycles, sorted(failing)]))
+    if problems:
+        res["violations"].append({"msg": problems[0], "mech": None,
+                                  "detail": {"part": "fork", "scenario": scenario, "producers": nprod, "messages_each": nmsg, "cycles": cycles,
+                                             "failing": sorted(failing)[:20], "problems": problems[:5], "child_calls": rep.get("calls", [])[:40],
+                                             "child_overlaps": rep.get("overlaps", [])[:5]}})
+
+
 def run_case(spec):
     res = {"evals": 0, "nontrivial": [], "counters": {}, "violations": [], "sample": None, "sets": {"interleavings": [], "preemption_lines": []}}
     if spec.get("signals"):
@@ -595,6 +864,9 @@ def run_case(spec):
         return res
     if spec.get("nostderr"):
         run_nostderr(spec, res)
+        return res
+    if spec.get("fork"):
+        run_fork(spec, res)
         return res
     rng = random.Random("%s:C19:%d" % (spec["seed"], spec["i"]))
     sched.instrument([logwriter])
@@ -701,6 +973,8 @@ def finalize(agg, tier):
         return "the writer's own threads were never registered with the scheduler"
     if not any(l.startswith("logwriter.py") for l in agg["sets"].get("preemption_lines", {})):
         return "no preemption landed inside eliot/logwriter.py"
+    if c.get("messages_written_in_a_forked_child", 0) == 0:
+        return "part 'fork': no message was written by a writer started in a forked child"
     if c.get("nostderr_destination_faults_fired", 0) == 0:
         return "part 'nostderr' never had the wrapped destination raise in a process without a usable stderr"
     return None
